@@ -80,8 +80,13 @@ def generation_writers(ctx, R, rule):
             lf = prog.by_qbase.get('%s:%s._from_db_object' % (
                 cls.module.name, cls.name))
         if not lf:
-            R.ob(rule, '%s._from_db_object' % cname, False,
-                 'loader exists', 'not found')
+            # no loader: rows become objects through the constructor only,
+            # so there is nothing that could overwrite the generation of an
+            # object a request has been compared with (the writer table
+            # above still bounds who assigns .generation)
+            R.ob(rule, '%s._from_db_object' % cname, True,
+                 'loader applied to fresh objects only',
+                 'no loader: constructor only', nontrivial=False)
             continue
         lf = lf[0]
         sites = []
